@@ -448,3 +448,123 @@ def replay_concat_read(rp):
             text_of(rp["pieces"][0]), text_of(rp["pieces"][1]), rp["bases"][0], rp["bases"][1], got, want)
     finally:
         shutil.rmtree(d, ignore_errors=True)
+
+
+def port_map_job(tier, kind="positional", timeout_ms=300000):
+    """VerilogParser.connect_implicitly_mapped_ports (positional) / parse_port_map_single (named): an expression of
+    n <= 2 bits (identifier, bit-select or part-select of a two-bit cable with symbolic base index; tokens and
+    parse_variable_instantiation stubbed) connected to a two-bit port: bit k of the expression, counted from its
+    least significant end, is joined to port bit k; port bits above the expression stay open."""
+    from spydrnet.parsers.verilog.parser import VerilogParser
+    from vf.e1.vals import SOpt
+    t0 = time.time()
+    name = "C06/VerilogParser.%s" % ("connect_implicitly_mapped_ports" if kind == "positional" else "parse_port_map_single")
+    W = 2
+    u = Universe(dict(Netlist=0, Library=0, Definition=2, Port=1, Cable=1, Wire=W, Instance=1, InnerPin=2, OuterPin=2),
+                 {}, 2, keys=(".NAME",), atoms=("P", "c", "u"))
+    shape = {("Definition", 0, "_cables"): [0], ("Cable", 0, "_wires"): [0, 1], ("Definition", 0, "_children"): [0],
+             ("Definition", 1, "_ports"): [0], ("Port", 0, "_pins"): [0, 1]}
+    pre = Heap.symbolic(u).apply_shape(shape)
+    pre.data["Port"][0][0] = (True, ATOMS.intern("P"))
+    pre.sc[("Port", "_lower_index")][0] = 0
+    heap = pre.copy()
+    ctx = Ctx(heap, M.REAL)
+    M.listeners_none(ctx)
+    ctx.globals_over[("spydrnet.global_state.global_service", "_registered_lookups")] = {}
+    fr = Frame(None, True, {})
+    A = pre.type_constraints() + spec.inv_all(pre)
+    D1 = u.gid("Definition", 1)
+    A.append(EQ(pre.sc[("Instance", "_reference")][0], D1))
+    ops_ = [pre.pinmap[0][k] for k in range(2)]
+    for o in range(2):
+        A.append(EQ(pre.sc[("OuterPin", "_wire")][o], NONE_ID))          # the instance is not connected yet
+    L = pre.sc[("Cable", "_lower_index")][0]
+    l, r = z3.Int("left"), z3.Int("right")
+    ln, rn = z3.Bool("left_is_none"), z3.Bool("right_is_none")
+    inr = lambda x: AND(GE(x, L), LT(x, ADD(L, W)))
+    A += [OR(ln, inr(l)), OR(rn, inr(r)), GE(L, 0), IMPLIES(ln, rn)]
+    A = [B(a) for a in A if a is not True]
+    inst = Ref(u.gid("Instance", 0), ("Instance",))
+    cab = Ref(u.gid("Cable", 0), ("Cable",))
+    toks = iter(["(", "x", "x", ")"] if kind == "positional" else [".", "P", "(", "x", ")"])
+    ctx.stubs[VerilogParser.next_token] = lambda c_, f, a, k: next(toks, ")")
+    ctx.stubs[VerilogParser.peek_token] = lambda c_, f, a, k: next(toks, ")")
+    ctx.stubs[VerilogParser.parse_variable_instantiation] = lambda c_, f, a, k: (cab, SOpt(ln, SInt(l)), SOpt(rn, SInt(r)))
+    selfv = Local(VerilogParser, {"current_instance": inst, "current_definition": Ref(u.gid("Definition", 0), ("Definition",))})
+    try:
+        if kind == "positional":
+            from spydrnet.parsers.verilog.tokenizer import VerilogTokenizerSimple
+            ctx.stubs[VerilogTokenizerSimple.__init__] = lambda c_, f, a, k: None
+            selfv.f["implicitly_mapped_ports"] = {inst: ["(", "x", ")"]}
+            call_function(ctx, fr, VerilogParser.connect_implicitly_mapped_ports, [selfv], owner=VerilogParser)
+        else:
+            def pins_of_port(c_, f, a, k):
+                return SList(2, [Ref(ops_[0], ("OuterPin",)), Ref(ops_[1], ("OuterPin",))])
+            ctx.stubs[VerilogParser.create_or_update_port_on_instance] = pins_of_port
+            call_function(ctx, fr, VerilogParser.parse_port_map_single, [selfv], owner=VerilogParser)
+    except Unsupported as e:
+        return [result(name, INCONCLUSIVE, "E1/symheap", detail="Unsupported: %s" % e, wall_s=time.time() - t0)]
+    post = heap
+    hi = ITE(AND(NOT(ln), NOT(rn)), MAX(l, r), ITE(NOT(ln), l, ADD(L, W - 1)))
+    lo = ITE(AND(NOT(ln), NOT(rn)), MIN(l, r), ITE(NOT(ln), l, L))
+    n = ADD(SUB(hi, lo), 1)
+    cs = []
+    for k in range(2):
+        now = ite_chain(ops_[k], u.ids("OuterPin"), post.sc[("OuterPin", "_wire")], NONE_ID)
+        want = ITE(LT(k, n), ADD(u.base["Wire"], SUB(ADD(lo, k), L)), NONE_ID)
+        cs.append(EQ(now, want))
+    funcs = sorted(fn_ident(f) for f in ctx.funcs_seen)
+    bounds = dict(u.describe(), port_width=2, cable_width=W, kind=kind,
+                  stubs=["next_token/peek_token: the tokens of one port connection", "parse_variable_instantiation: symbolic (cable, left, right)"]
+                  + ([] if kind == "positional" else ["create_or_update_port_on_instance: the instance's two pins of the port"]))
+    ok = [B(NOT(ctx.exc)), B(NOT(ctx.bound))]
+    tw = {"returns": M.check(A, AND(NOT(ctx.exc), NOT(ctx.bound)), 60000)[0],
+          "narrow-expression": M.check(A + ok, EQ(n, 1), 60000)[0]}
+    if any(v != "sat" for v in tw.values()):
+        return [result(name, VACUOUS, "E1/symheap", twins=tw, bounds=bounds, detail="reachability twin failed: %s %s" % (
+            tw, sorted(set(ctx.bound_why))[:3]))]
+    st, dt, mdl = M.check(A + ok, NOT(AND(*cs)), timeout_ms)
+    oname = name + "/expression-bit-k-joins-port-bit-k-from-the-low-end"
+    if st == "unsat":
+        return [result(oname, DISCHARGED, "E1/symheap", queries=3, solver_s=dt, twins=tw, bounds=bounds, functions=funcs,
+                       detail="unsat", wall_s=time.time() - t0, paths=1)]
+    if st != "sat":
+        return [result(oname, INCONCLUSIVE, "E1/symheap", detail="solver: %s" % st, bounds=bounds)]
+    mv = lambda x: replay.mval(mdl, x)
+    rp = {"engine": "E1", "property": "C06", "obligation": oname, "kind": "port_map", "map": kind, "base": mv(L),
+          "left": None if mv(ln) else mv(l), "right": None if mv(rn) else mv(r)}
+    try:
+        viol, txt = replay_port_map(rp)
+    except Exception:
+        viol, txt = False, "replay crashed: " + traceback.format_exc()[-400:]
+    return [result(oname, VIOLATED if viol else ERROR, "E1/symheap", queries=3, solver_s=dt, twins=tw, bounds=bounds,
+                   functions=funcs, replay=rp if viol else None,
+                   detail=txt if viol else "counterexample did not reproduce: " + txt, wall_s=time.time() - t0)]
+
+
+def replay_port_map(rp):
+    """a real file: two-bit port, two-bit cable with that base, the expression in a positional / named port map"""
+    import os
+    import shutil
+    import tempfile
+    import spydrnet as sdn
+    b, l, r = rp["base"], rp["left"], rp["right"]
+    expr = "c" + ("" if l is None else "[%d]" % l if r is None else "[%d:%d]" % (l, r))
+    bits = list(range(b, b + 2)) if l is None else [l] if r is None else list(range(min(l, r), max(l, r) + 1))
+    conn = "(%s)" % expr if rp["map"] == "positional" else "(.P(%s))" % expr
+    text = "module SUB(P);\n input [1:0] P;\nendmodule\nmodule TOP();\n wire [%d:%d] c;\n SUB u %s;\nendmodule\n" % (b + 1, b, conn)
+    d = tempfile.mkdtemp(prefix="vf_c06_")
+    try:
+        p = os.path.join(d, "x.v")
+        open(p, "w").write(text)
+        nl = sdn.parse(p)
+        inst = next(nl.get_instances("u"))
+        port = next(inst.reference.get_ports("P"))
+        got = []
+        for k in range(2):
+            w = inst.pins[port.pins[k]].wire
+            got.append(None if w is None else w.cable.wires.index(w) + w.cable.lower_index)
+        want = [bits[k] if k < len(bits) else None for k in range(2)]
+        return got != want, "SUB u %s with c[%d:%d]: port bits P[0], P[1] joined to c%s, expected c%s" % (conn, b + 1, b, got, want)
+    finally:
+        shutil.rmtree(d, ignore_errors=True)
